@@ -43,13 +43,16 @@ Conforms(t, s1, k) ==
 \* context for the report: the statement-level state before unit k
 RECURSIVE StateBefore(_, _, _, _)
 StateBefore(t, s2, j, k) == IF j = k THEN s2 ELSE StateBefore(t, L2Step(t.codec, s2, t.aus[j]), j + 1, k)
-\* a shape worth naming in reports: a parameter set that differs from the current one is followed, inside the
-\* same unit, by one of the same kind that equals the current one
-Reverts(c, ps, au) ==
+\* a shape worth naming in reports: a unit that carries two parameter sets of one kind with different values
+MultiValued(c, au) ==
     c \in {"h264", "h265"} /\ \E p, q \in 1..Len(au) :
-        /\ p < q /\ au[p] \in ParamTokens /\ au[q] \in ParamTokens /\ Kind(au[p]) = Kind(au[q])
-        /\ Kind(au[p]) \in Range(Kinds(c))
-        /\ Val(au[p]) # ps[Kind(au[p])] /\ Val(au[q]) = ps[Kind(au[q])]
+        /\ p < q /\ au[p] \in ParamTokens /\ au[q] \in ParamTokens
+        /\ Kind(au[p]) = Kind(au[q]) /\ Kind(au[p]) \in Range(Kinds(c)) /\ Val(au[p]) # Val(au[q])
+MultiValuedUpTo(t, k) == \E j \in 1..k : MultiValued(t.codec, t.aus[j])
+\* MPEG-4: an earlier frame began with a configuration that was followed by other chunks before its first GOV
+ConfigRunHasMedia(t, k) ==
+    t.codec = "mpeg4" /\ \E j \in 1..(k - 1) :
+        LET fr == t.aus[j] IN Len(fr) >= 3 /\ fr[1] \in ConfigTokens /\ FirstGOVFrom2(fr) > 2
 
 Verdict(t, ln) ==
     LET bad == Judge(t, L2Init(t.codec, t.init), 1, {})
@@ -57,8 +60,11 @@ Verdict(t, ln) ==
          LET before == StateBefore(t, L2Init(t.codec, t.init), 1, b[1]) IN
          Emit("BAD", [l |-> ln, id |-> t.id, via |-> t.via, unit |-> b[1], clause |-> b[2],
                       before |-> IF t.codec = "mpeg4" THEN [cfg |-> before] ELSE before,
-                      reverts |-> Reverts(t.codec, before, t.aus[b[1]])])
-
+                      pattern |-> IF MultiValuedUpTo(t, b[1])
+                                  THEN "unit-with-two-values-of-one-parameter-set"
+                                  ELSE IF ConfigRunHasMedia(t, b[1])
+                                  THEN "config-run-of-earlier-frame-contains-media"
+                                  ELSE "other"])
 Verdicts == l >= 1 => Verdict(Trace[l], l)
 Drift    == l >= 1 => (Conforms(Trace[l], L1Init(Trace[l].codec, Trace[l].init), 1)
                        \/ Emit("DRIFT", [l |-> l, id |-> Trace[l].id, via |-> Trace[l].via]))
